@@ -505,9 +505,6 @@ def main(tier):
         jobs.append({"kind": "heap", "tn": tn, "syn": syn, "label": lab, "n": len(data), "path": path, "build": "san", "stack": 8192, "ms": -1,
                      "c": c, "K": K, "why": why, "head": data[:24].hex()})
 
-    if os.environ.get("C15_DEV") == "sweep":
-        jobs = []
-
     def go(j):
         exe = (sexe if j["build"] == "san" else pexe)[j["tn"]]["exe"]
         dsyn = "ber" if j["syn"] == "beri" else j["syn"]
